@@ -213,8 +213,9 @@ PROPS["C05"] = {
     "outside_bound": ["arbitrary operation histories", "preemption bound above 1 (thorough 2)"],
     "quick": [H("ZZ_C05_DeleteVsEvict", params={"PRE": 1}, reach=["drained"]), H("ZZ_C05_DeleteVsEvict", params={"PRE": 1, "POOL": 1}, reach=["drained"]),
               H("ZZ_C05_DeleteVsExpire", params={"PRE": 1}, reach=["drained"]), H("ZZ_C05_EvictVsExpire", params={"PRE": 1}, reach=["drained"]),
+              H("ZZ_C05_ExpiredOnArrival", reach=["drained", "expired-on-arrival"], bounds="TTL, processing time and cached-clock reading symbolic"),
               H("ZZ_C05_Rejected", reach=["drained", "doorkeeper-rejected"])],
-    "thorough": [H("ZZ_C05_DeleteVsEvict", params={"PRE": 2}, reach=["drained"]), H("ZZ_C05_DeleteVsEvict", params={"PRE": 2, "POOL": 1}, reach=["drained"]),
+    "thorough": [H("ZZ_C05_ExpiredOnArrival", reach=["drained", "expired-on-arrival"]), H("ZZ_C05_DeleteVsEvict", params={"PRE": 2}, reach=["drained"]), H("ZZ_C05_DeleteVsEvict", params={"PRE": 2, "POOL": 1}, reach=["drained"]),
                  H("ZZ_C05_DeleteVsExpire", params={"PRE": 2}, reach=["drained"]), H("ZZ_C05_EvictVsExpire", params={"PRE": 2}, reach=["drained"]),
                  H("ZZ_C05_Rejected", reach=["drained", "doorkeeper-rejected"])],
 }
@@ -261,6 +262,93 @@ PROPS["C16"] = {
               H("ZZ_C16_Counter", params={"PRE": 2}, reach=["adds-done"]), H("ZZ_C16_Views", reach=["views-done"])],
     "thorough": [H("ZZ_C16_GetCounts", reach=["get-done"]), H("ZZ_C16_GetCounts", params={"LOADING": 1}, reach=["get-done"]),
                  H("ZZ_C16_Counter", params={"PRE": 4, "POOLMODE": 2}, reach=["adds-done"]), H("ZZ_C16_Views", params={"N": 5}, reach=["views-done"])],
+}
+
+_gob_note = "encoding/gob and bytes.Buffer/Reader are replaced by a faithful value channel (Encode appends a snapshot of the value, Decode delivers the next one or io.EOF, a wire value that does not fit the target is a decode error; Buffer.Len() may report 'block full' at any point in the SPLIT runs): byte layout, type descriptors and byte counts are outside the model. xxh3.Hash of a payload is an uninterpreted function of the payload's identity. "
+
+PROPS["C11"] = {
+    "title": "SaveCache/LoadCache round trip (logic, not gob bytes)",
+    "technique": "SSA symbolic execution of the real Store.Persist / Store.Recover / List.Persist / DataBlock with encoding/gob stubbed as a value channel; source cache built through the real API; elapsed time and costs symbolic (z3)",
+    "level_text": "Bounded symbolic model checking of the repository's own save/restore logic: a cache filled through the real API (entries with and without TTL, hits that move entries between regions) is saved to a ghost stream and loaded into a fresh cache after a symbolic clock advance; for all advances (and symbolic costs in the COSTS runs) z3 decides that every unexpired entry is restored with the same key, value, cost and deadline, region, relative order and at least the saved frequency, that expired ones are dropped, that the new cache satisfies the accounting and wheel-membership invariants and adopts the saved clock origin; block splitting at arbitrary points is explored. Claimed in part: the gob byte stream is not modelled.",
+    "level_note": "Trusted: go/ssa, executor encoding, z3. " + _gob_note + "Known finding: loading into a smaller cache can exceed the new capacity when costs are not 1.",
+    "assumptions": ["gob round-trips the values it is given (its contract, and the README's precondition on key/value types)", "N=4 entries, capacity 10"],
+    "outside_bound": ["gob byte layout and 4 MiB thresholds as byte counts", "more than 4 entries", "arbitrary adaptive-split states (only those reached by the fill script)"],
+    "quick": [H("ZZ_C11_RoundTrip", reach=["loaded"], bounds="4 entries, cap 10, same size, advance <= 2^31 ns symbolic"),
+              H("ZZ_C11_RoundTrip", params={"COSTS": 1}, reach=["loaded"], bounds="symbolic costs 1..3"),
+              H("ZZ_C11_RoundTrip", params={"CAP2": 2}, reach=["loaded"], bounds="smaller target (unit costs)"),
+              H("ZZ_C11_RoundTrip", params={"COSTS": 1, "CAP2": 4}, reach=["loaded"], bounds="smaller target, symbolic costs")],
+    "thorough": [H("ZZ_C11_RoundTrip", reach=["loaded"]), H("ZZ_C11_RoundTrip", params={"COSTS": 1}, reach=["loaded"]),
+                 H("ZZ_C11_RoundTrip", params={"SPLIT": 1}, reach=["loaded"], bounds="block splits at arbitrary points"),
+                 H("ZZ_C11_RoundTrip", params={"CAP2": 2}, reach=["loaded"]), H("ZZ_C11_RoundTrip", params={"COSTS": 1, "CAP2": 4}, reach=["loaded"]),
+                 H("ZZ_C11_RoundTrip", params={"N": 6, "CAP": 4, "CAP2": 4}, reach=["loaded"], bounds="source cache under eviction pressure")],
+}
+
+PROPS["C12"] = {
+    "title": "damaged or truncated stream (block-level faults)",
+    "technique": "SSA symbolic execution of the real Store.Recover on a ghost stream passed through an enumerated block-level fault schedule (truncate, drop, duplicate, swap, retag, checksum damage, payload swap, payload damage), version mismatch",
+    "level_text": "Bounded model checking over fault schedules at block granularity: the stream produced by the real Persist is damaged by every single fault (thorough: every pair) of the listed kinds at every block position and loaded by the real Recover; asserted: a truncated stream is an error, every loaded entry equals a saved entry (key, value, deadline not later), no Go panic, and a stream saved under another version yields VersionMismatch with nothing loaded. Claimed in part: bit/byte-level damage inside gob framing is outside the model.",
+    "level_note": "Trusted: go/ssa, executor encoding, z3. " + _gob_note + "A damaged payload is modelled as 'decoder fails at the damaged item and the payload's checksum changes'; checksum collisions are excluded by construction.",
+    "assumptions": ["no xxh3 collision between a payload and its damaged version"],
+    "outside_bound": ["bit/byte-level corruption inside gob messages and type descriptors", "more than 2 simultaneous faults"],
+    "quick": [H("ZZ_C12_Faults", params={"FAULTS": 1}, reach=["recover-returned"], bounds="every single block-level fault"),
+              H("ZZ_C12_Faults", params={"FAULTS": 1, "VERSION": 1}, reach=["recover-returned"], bounds="version mismatch, with a fault")],
+    "thorough": [H("ZZ_C12_Faults", params={"FAULTS": 1}, reach=["recover-returned"]),
+                 H("ZZ_C12_Faults", params={"FAULTS": 1, "VERSION": 1}, reach=["recover-returned"]),
+                 H("ZZ_C12_Faults", params={"FAULTS": 2}, reach=["recover-returned"], bounds="every pair of faults")],
+}
+
+PROPS["C14"] = {
+    "title": "hybrid cache never serves stale, deleted or expired values",
+    "technique": "SSA symbolic execution with controlled threads of the real hybrid entry points (GetWithSecodary, Set, DeleteWithSecondary) with the real processSecondary worker and a nondeterministic secondary store; sequential histories against a model, Delete-vs-demotion race, symbolic read time",
+    "level_text": "Bounded model checking: (a) every history of N calls (Set k1 with/without TTL, Set k2 on a one-slot memory tier so that demotion and promotion happen, hybrid Get, hybrid Delete, clock advance) with workers keeping up, checked against a model: a hit from either tier carries the last completed Set's value, never after a completed Delete or past the deadline; (b) Delete racing the demotion of the same entry in all schedules within the preemption bound; (c) promote-update-evict-read; (d) expired entry in the secondary tier with symbolic read time.",
+    "level_note": _thr_note + "Secondary store = harness map with a yield in every method (slow store); admission probability 1; one worker; the hand-off queue is never full (256 slots).",
+    "assumptions": ["workers keep up between the calls of the sequential histories (the race program does not assume it)"],
+    "outside_bound": ["full hand-off queue", "admission probability below 1", "more than one worker", "histories longer than N (quick 4, thorough 5)"],
+    "quick": [H("ZZ_C14_Seq", params={"N": 4}, reach=["sequence-done", "hit", "promoted-from-secondary"], bounds="N=4 calls, memory capacity 1"),
+              H("ZZ_C14_StalePromoted", reach=["evicted-again"]), H("ZZ_C14_DeleteRace", params={"PRE": 1}, reach=["settled"]), H("ZZ_C14_Expired", reach=["read"])],
+    "thorough": [H("ZZ_C14_Seq", params={"N": 5}, reach=["sequence-done", "hit", "promoted-from-secondary"], bounds="N=5 calls"),
+                 H("ZZ_C14_StalePromoted", reach=["evicted-again"]), H("ZZ_C14_DeleteRace", params={"PRE": 2}, reach=["settled"]), H("ZZ_C14_Expired", reach=["read"])],
+}
+
+PROPS["C15"] = {
+    "title": "evicted entries reach the secondary tier; memory stays bounded",
+    "technique": "SSA symbolic execution with controlled threads of Set / loading Get overflowing a one-slot memory tier with the real worker; every secondary Set may fail (nondeterministic choice per call)",
+    "level_text": "Bounded model checking: n writes (with or without TTL) or loads overflow a capacity-1 memory tier with admission probability 1; after the workers settle every capacity-evicted entry is in the secondary tier with the same value, cost and deadline and a hybrid Get returns it without reloading; with a failing secondary (every failure pattern) the error handler runs once per failure and the memory tier stays within MaxSize.",
+    "level_note": _thr_note + "Secondary store = harness map; one worker; queue never full (the property conditions on it).",
+    "assumptions": ["workers given time to keep up (settle after each call)"],
+    "outside_bound": ["more than 3 writes", "more than one worker"],
+    "quick": [H("ZZ_C15_Demotion", reach=["filled"]), H("ZZ_C15_Demotion", params={"FAIL": 1}, reach=["filled"], bounds="every failure pattern of 2 demotions"),
+              H("ZZ_C15_LoaderDemotion", reach=["loaded-two"])],
+    "thorough": [H("ZZ_C15_Demotion", params={"N": 4}, reach=["filled"]), H("ZZ_C15_Demotion", params={"FAIL": 1, "N": 4}, reach=["filled"]),
+                 H("ZZ_C15_LoaderDemotion", reach=["loaded-two"])],
+}
+
+PROPS["C18"] = {
+    "title": "equal keys address the same entry; different keys never alias (pre-1.24 hasher)",
+    "technique": "SSA symbolic execution of hasher.NewHasher/Hash through their unsafe casts with xxh3 uninterpreted (cvc5, congruence), and of Store.Set/Get/Delete under a full 64-bit hash collision",
+    "level_text": "Bounded symbolic model checking: for key types uint64, int32, bool, struct{uint32,uint32}, [2]uint32, *int and string the real Hash reads exactly the key's memory image (the executor models the fabricated string header and rejects padding or out-of-object reads), so equal keys hash equally and the hash is stable - decided by congruence of the uninterpreted xxh3; with a StringKeyFunc the hash depends on the derived string only; two different keys whose 64-bit hashes are assumed equal keep their own values through Set/Get/Delete and the accounting stays consistent.",
+    "level_note": "Trusted: go/ssa, executor encoding of the unsafe string-header cast, cvc5/z3. Claimed in part: key types up to 8 bytes of scalars; the go1.24 maphash variant is not in this image's default toolchain; hash quality is out of scope.",
+    "assumptions": ["xxh3 is a function (uninterpreted)"],
+    "outside_bound": ["key types wider than 8 bytes", "struct keys with padding, string/float/interface fields (excluded by the property for pre-1.24)", "go1.24+ hasher"],
+    "quick": [H("ZZ_C18_Hasher", reach=["hashed"], solver="cvc5"), H("ZZ_C18_StringKeyFunc", reach=["hashed"], solver="cvc5"), H("ZZ_C18_Collision", reach=["collided"])],
+    "thorough": [H("ZZ_C18_Hasher", reach=["hashed"], solver="cvc5"), H("ZZ_C18_StringKeyFunc", reach=["hashed"], solver="cvc5"), H("ZZ_C18_Collision", reach=["collided"]),
+                 H("ZZ_C18_Collision", params={"DOOR": 1}, reach=["collided"])],
+}
+
+def _c19(pre):
+    return [H("ZZ_C19_Pairs", params={"PAIR": p, "PRE": pre}, reach=["pair-done"], bounds=b) for p, b in
+            [(0, "Range || Set"), (1, "Len/EstimatedSize || Delete+Set"), (2, "Stats || Get"), (3, "17 Gets (read-buffer drain) || Sets with eviction and listener"),
+             (4, "tick/expiry || SetWithTTL || Get"), (5, "Close || Get/Set"), (6, "Wait || Set")]]
+
+PROPS["C19"] = {
+    "title": "no data races in the default configuration (bounded)",
+    "technique": "vector-clock (happens-before) race monitor inside the SSA executor over every heap cell loaded or stored, on two-thread programs of the real Store explored over all schedules within the preemption bound",
+    "level_text": "Bounded model checking with a happens-before monitor: for pairs of API calls the suite never overlaps, every schedule at synchronisation granularity within the preemption bound is executed and every load/store of a heap cell (struct fields, slice elements, maps) is checked against the last conflicting access using vector clocks (edges: mutex release->acquire, channel send->receive and close->receive, go, WaitGroup, sync/atomic accesses). Because exploration is exhaustive inside the bound, a race in the bounded program is reported whichever schedule hides it from the Go race detector. The self-test plants a race and checks that it is reported.",
+    "level_note": _thr_note + "Entry pool off, listener installed. Cells inside stubbed library objects and RBMutex internals (own harness under C01) are not monitored. SaveCache and hybrid pairs are not among the programs.",
+    "assumptions": ["ideal reader/writer lock for RBMutex"],
+    "outside_bound": ["more than 2 client threads", "SaveCache and hybrid-cache pairs", "preemption bound above 1 (thorough 2)"],
+    "quick": _c19(1),
+    "thorough": _c19(2),
 }
 
 NOT_APPLICABLE = [
